@@ -176,6 +176,13 @@ def resolve_refs(op, model):
     elif k == "remove_rule":
         if dec(op["anchor"]) not in model.rules:
             return None
+    elif k == "abandon_query":
+        if op.get("ref") is not None:
+            weid = model.pref.get(dec(op["ref"]))
+            if weid is None:
+                return None
+            r["weid"] = weid
+            r["prefixes"] = model.we_prefixes(weid)
     return r
 
 
@@ -206,6 +213,13 @@ def seq_lrus(op):
     return [base + b"p:n%04d|" % i for i in idx]
 
 
+def _prefix_map(sut):
+    from .fsck import Fsck
+
+    a, b = sut.stores()
+    return Fsck(a, b).prefixes()
+
+
 class InputFault(Exception):
     """Raised by the caller's own input stream in the middle of a request (the argument of
     add_pages / add_links may be any iterable, e.g. a generator reading a crawl result)."""
@@ -232,6 +246,71 @@ def _with_input_fault(sut, call, items, k):
             return ("input_fault", "nothing")
         return ("input_fault", "pages" if b1 == b0 else "full")
     return ("input_fault", "swallowed")
+
+
+class _EveryIterationYields(object):
+    """Within the block every loop iteration of an iterator request is a yield point."""
+
+    def __enter__(self):
+        from traph.traph_iterator_state import TraphIteratorState
+
+        self.cls = TraphIteratorState
+        self.saved = TraphIteratorState.should_yield
+        TraphIteratorState.should_yield = lambda self_, yield_frequency=1000: True
+
+    def __exit__(self, *a):
+        self.cls.should_yield = self.saved
+
+
+QUERY_ITERS = ("pages", "crawled_pages", "most_linked", "children", "pagelinks", "outlinks", "inlinks", "net_slow", "net", "net_in", "net_out")
+
+
+def _query_iter(t, kind, weid, prefixes, flag):
+    if kind == "pages":
+        return t.get_webentity_pages_iter(weid, prefixes)
+    if kind == "crawled_pages":
+        return t.get_webentity_crawled_pages_iter(weid, prefixes)
+    if kind == "most_linked":
+        return t.get_webentity_most_linked_pages_iter(weid, prefixes, pages_count=3)
+    if kind == "children":
+        return t.get_webentity_child_webentities_iter(weid, prefixes)
+    if kind == "pagelinks":
+        return t.get_webentity_pagelinks_iter(weid, prefixes, include_inbound=flag, include_internal=True, include_outbound=True)
+    if kind == "outlinks":
+        return t.get_webentity_outlinks_iter(weid, prefixes)
+    if kind == "inlinks":
+        return t.get_webentity_inlinks_iter(weid, prefixes)
+    if kind == "net_slow":
+        return t.get_webentities_links_slow_iter(out=flag, include_auto=True)
+    if kind == "net":
+        return t.get_webentities_links_iter(out=flag, include_auto=True)
+    if kind == "net_in":
+        return t.get_webentities_inlinks_iter(include_auto=flag)
+    if kind == "net_out":
+        return t.get_webentities_outlinks_iter(include_auto=flag)
+    raise ValueError(kind)
+
+
+def _advance_and_abandon(g, steps, how):
+    """Advance an iterator request `steps` yield points, then abandon it the way callers do:
+    an explicit close(), or simply dropping the last reference.  Returns (steps done, final
+    state if the request happened to finish)."""
+    done = 0
+    final = None
+    with _EveryIterationYields():
+        try:
+            for _ in range(steps):
+                st = next(g)
+                done += 1
+                if st.done:
+                    final = st
+                    break
+        except StopIteration:
+            pass
+    if how == "close":
+        g.close()
+    del g  # "drop": the reference count falls to zero here
+    return done, final
 
 
 def _start_pending(t, spec):
@@ -304,6 +383,22 @@ def exec_sut(sut, op, refs, model):
             return ("ok", t.remove_prefix_from_webentity(arg(op["prefix"]), refs["weid"]))
         if k == "move_prefix":
             return ("ok", t.move_prefix_to_webentity(arg(op["prefix"]), refs["target"], refs["source"]))
+        if k == "abandon_query":
+            g = _query_iter(t, op["kind"], refs.get("weid"), refs.get("prefixes"), bool(op.get("flag")))
+            _advance_and_abandon(g, op["steps"], op.get("how", "close"))
+            return ("ok", None)
+        if k == "add_rule" and op.get("abandon_after"):
+            before = _prefix_map(sut)
+            g = t.add_webentity_creation_rule_iter(arg(op["anchor"]), lrugen.RULES[op["rule"]])
+            done, final = _advance_and_abandon(g, op["abandon_after"], op.get("how", "close"))
+            if final is not None:
+                return canon_report(final.result)
+            after = _prefix_map(sut)
+            new = {}
+            for p, w in after.items():
+                if before.get(p) != w:
+                    new.setdefault(w, []).append(p)
+            return ("abandoned", tuple(sorted((w, tuple(sorted(v))) for w, v in new.items())))
         if k == "add_rule":
             if op.get("drive") == "until_done":
                 return canon_report(drive_until_done(t.add_webentity_creation_rule_iter(arg(op["anchor"]), lrugen.RULES[op["rule"]])))
@@ -394,6 +489,16 @@ def exec_model(model, op, refs, observed):
             return ("ok", model.remove_prefix(dec(op["prefix"]), refs["weid"])), None
         if k == "move_prefix":
             return ("ok", model.move_prefix(dec(op["prefix"]), refs["target"], refs["source"])), None
+        if k == "abandon_query":
+            return ("ok", None), None
+        if k == "add_rule" and observed and observed[0] == "abandoned":
+            # the rule is registered and flagged; of the pages beneath its anchor some - in some
+            # order - were re-inserted before the caller walked away
+            obs_we = {wid: list(pl) for wid, pl in observed[1]}
+            why = model.add_rule_observed(dec(op["anchor"]), lrugen.RULES[op["rule"]], obs_we, partial=True)
+            if why is not None:
+                return ("abandoned", ("<no order of re-insertion of some pages gives this>",)), why
+            return observed, None
         if k == "add_rule":
             if observed[0] != "report":
                 return ("report", 0, ()), "rule installation did not return a report"
@@ -442,4 +547,6 @@ def op_lrus(op):
         return [op["prefix"]]
     if k in ("add_rule", "remove_rule"):
         return [op["anchor"]]
+    if k == "abandon_query" and op.get("ref") is not None:
+        return [op["ref"]]
     return []
